@@ -12,9 +12,13 @@ ASSUMPTIONS = ["socket.recv contract (DESIGN C11): returns the next |d| <= bufsi
                "or raises OSError/TimeoutError having consumed nothing; every segmentation and fault placement is one resolution of it",
                "termination of read() needs the peer to send, close or time out (liveness assumption, not proved)",
                "plain mode (chunked bit clear); chunked mode is C12; write()/in_waiting() not covered"]
-ARGUED = ["'the reader over a socket returns the same messages as over a file': SocketWrapper.read/readline satisfy the stream contract "
-          "of DESIGN 3.1 with src = the peer's stream (read: all-or-nothing next bytes; readline: through the first LF) and RTCMReader is "
-          "verified against that contract only (C01/C02); RTCMReader.__init__ wraps sockets (obligation below)"]
+ARGUED = ["'the reader over a socket returns the same messages as over a file': RTCMReader is verified against the stream contract of "
+          "DESIGN 3.1 only (C01/C02); that SocketWrapper.read/readline REFINE that contract with src = the peer's stream, pos = bytes "
+          "delivered, end = net_end is mechanised as lemmas over the contracts (lemma.refines.SocketWrapper.read/readline.*: every outcome "
+          "the wrapper contracts allow is one the stream contract allows, and the class invariant holds again); what stays argued is the "
+          "step from 'every behaviour over a socket is a behaviour over some stream obeying the contract' to equality with a fault-free "
+          "file (a file returns the partial tail where the wrapper returns b'' - same messages, by C01's exact delimitation); "
+          "RTCMReader.__init__ wraps sockets (obligation below)"]
 EXPLANATION = ("class invariant _buffer == net[delivered : received] established by __init__, preserved by _recv (both outcomes - a failed "
                "receive changes nothing) and by read/readline; read returns exactly the next num bytes or b'' after a failed receive; "
                "readline the bytes through the first LF; loops cut at invariants: any number of receives of any sizes.")
@@ -27,6 +31,9 @@ def units(tier):
     us += func_units(R + ".__init__", tier)
     from spec import api
     from props.common import ground_unit as _gu
+    from props.common import lemma_unit
+    from contracts import socketw
+    us.append(lemma_unit("socket.refines_stream_contract", socketw.refinement_lemmas))
     us.append(_gu("api.signatures", api.signature_lemmas(['pyrtcm.socketwrapper.SocketWrapper.__init__', 'pyrtcm.rtcmreader.RTCMReader.__init__'])))
     return us
 
